@@ -81,15 +81,15 @@ JudgeDates(r) ==
   LET n == IF DateShape(r, r.obs.n) THEN r.obs.n ELSE -1
       want == DateCount(r.scn)
       bad == IF n = want THEN {i \in 1..n : DateField(r, i) # ""} ELSE {}
-  IN IF n # want THEN [ok |-> FALSE, n |-> 0, first |-> 0, nt |-> 0,
+  IN IF n # want THEN [ok |-> FALSE, n |-> 0, first |-> 0, nt |-> 0, skip |-> 0,
                        sig |-> [kind |-> r.scn.kind, fn |-> "imf_fixdate", elem |-> "batch", field |-> "count"]]
-     ELSE IF bad = {} THEN [ok |-> TRUE, n |-> n, first |-> 0,
+     ELSE IF bad = {} THEN [ok |-> TRUE, n |-> n, first |-> 0, skip |-> 0,
                             nt |-> Cardinality({i \in 1..n : IrregularObs(r.obs, i)}),
                             sig |-> [kind |-> r.scn.kind, fn |-> "imf_fixdate", elem |-> "all", field |-> "none"]]
      ELSE LET i == MinOf(bad)
               f == DateField(r, i)
               c == CivilFromDays(DayAt(r, i))
-          IN [ok |-> FALSE, n |-> n, first |-> i, nt |-> 0,
+          IN [ok |-> FALSE, n |-> n, first |-> i, nt |-> 0, skip |-> 0,
               sig |-> [kind |-> r.scn.kind, fn |-> "imf_fixdate", field |-> f,
                        elem |-> IF f = "input-out-of-range" THEN "none"
                                 ELSE IF f \in TimeFields THEN ClockClass(SodAt(r, i))
@@ -143,26 +143,89 @@ JudgeNums(r) ==
       fn == r.scn.fn
       bad == IF n = want THEN {i \in 1..n : NumField(r, i) # ""} ELSE {}
   IN IF n # want \/ fn \notin {"itoa", "hexized", "hexized_bytes"}
-       THEN [ok |-> FALSE, n |-> 0, first |-> 0, nt |-> 0, sig |-> [kind |-> r.scn.kind, fn |-> fn, elem |-> "batch", field |-> "count"]]
-     ELSE IF bad = {} THEN [ok |-> TRUE, n |-> n, first |-> 0,
+       THEN [ok |-> FALSE, n |-> 0, first |-> 0, nt |-> 0, skip |-> 0, sig |-> [kind |-> r.scn.kind, fn |-> fn, elem |-> "batch", field |-> "count"]]
+     ELSE IF bad = {} THEN [ok |-> TRUE, n |-> n, first |-> 0, skip |-> 0,
                             nt |-> Cardinality({i \in 1..n : IrregularNum(LimbsAt(r, i), Base(fn))}),
                             sig |-> [kind |-> r.scn.kind, fn |-> fn, elem |-> "all", field |-> "none"]]
      ELSE LET i == MinOf(bad)
               f == NumField(r, i)
-          IN [ok |-> FALSE, n |-> n, first |-> i, nt |-> 0,
+          IN [ok |-> FALSE, n |-> n, first |-> i, nt |-> 0, skip |-> 0,
               sig |-> [kind |-> r.scn.kind, fn |-> fn, field |-> f,
                        elem |-> IF f = "input-out-of-range" THEN "none" ELSE NumClass(fn, LimbsAt(r, i))]]
+
+\* ------------------------------------------------------------------ the same formatters observed on the wire
+\* wire-cl: a real Response::OK().with_text(<size bytes>) written by the real Response::send.  Content-Length must be
+\* the canonical decimal of the size.  The Date header cannot be compared with a chosen instant (it is `now`); it must
+\* be a well-formed IMF-fixdate of an existing instant whose weekday belongs to its date (closed forms, both
+\* directions), lying between the harness's own clock readings around the construction (2 s slack).
+WireKinds == {"wire-cl", "wire-chunk"}
+WireDateField(o, i) ==
+  IF o.len[i] # ImfLen THEN "date-length"
+  ELSE IF o.frame[i] # ImfFrame THEN "date-frame"
+  ELSE IF ~KnownNames(o, i) THEN "date-names"
+  ELSE LET c == ObsDate(o, i) IN
+       IF ~(c.y \in 1970..9999 /\ c.d \in 1..DaysIn(c.y, c.m) /\ o.hh[i] \in 0..23 /\ o.mi[i] \in 0..59 /\ o.ss[i] \in 0..59)
+         THEN "date-range"
+       ELSE LET dn == DaysFromCivil(c.y, c.m, c.d)
+                Rel(dd, sd) == (dd - o.t0day[i]) * 86400 + sd
+                t == Rel(dn, 3600 * o.hh[i] + 60 * o.mi[i] + o.ss[i])
+            IN IF CivilFromDays(dn) # c THEN "date-weekday"
+               ELSE IF (dn - o.t0day[i]) \notin -1..1 \/ (o.t1day[i] - o.t0day[i]) \notin 0..1 THEN "date-not-now"
+               ELSE IF t < Rel(o.t0day[i], o.t0sod[i]) - 2 \/ t > Rel(o.t1day[i], o.t1sod[i]) + 2 THEN "date-not-now"
+               ELSE ""
+\* wire-chunk: a real one-message event stream.  The chunk-size line (hexized_bytes, padding stripped by the writer)
+\* must be the canonical lower-case hexadecimal of the number of bytes that follow up to the chunk's closing CRLF
+\* (counted by the harness from both ends of the body, independently of the size line).
+ChunkField(L, bs) ==
+  LET ds == Vals(bs, HexVal) IN
+  IF bs = <<>> THEN "empty"
+  ELSE IF \E k \in 1..Len(ds) : ds[k] = -1 THEN (IF \E k \in 1..Len(bs) : bs[k] \in 65..70 THEN "upper-case" ELSE "non-digit")
+  ELSE IF ~Canonical(ds) THEN "leading-zero"
+  ELSE IF bs # HexCanonBytes(L) THEN "value"
+  ELSE IF HexToLimbs(ds) # [ok |-> TRUE, limbs |-> L] THEN "value"
+  ELSE ""
+\* "unobservable": the response could not be cut into head / single chunk by the harness (a framing matter of C03/C17,
+\* not of the formatters): counted as skipped, reported by the driver as a NOTE, never a violation of C20
+WireField(r, i) ==
+  LET o == r.obs IN
+  IF o.err[i] = "panic" THEN "panic"
+  ELSE IF o.err[i] # "" THEN "unobservable"
+  ELSE IF r.scn.kind = "wire-cl"
+         THEN LET f == DecField(LimbsOfInt(r.scn.sizes[i]), o.out[i]) IN IF f # "" THEN f ELSE WireDateField(o, i)
+         ELSE ChunkField(LimbsOfInt(o.follow[i]), o.out[i])
+WireShape(r, n) == LET o == r.obs IN
+  /\ Len(o.out) = n /\ Len(o.err) = n
+  /\ (r.scn.kind = "wire-cl" => /\ Len(o.wd) = n /\ Len(o.dd) = n /\ Len(o.mon) = n /\ Len(o.yy) = n /\ Len(o.hh) = n /\ Len(o.mi) = n
+                                 /\ Len(o.ss) = n /\ Len(o.len) = n /\ Len(o.frame) = n
+                                 /\ Len(o.t0day) = n /\ Len(o.t0sod) = n /\ Len(o.t1day) = n /\ Len(o.t1sod) = n)
+  /\ (r.scn.kind = "wire-chunk" => Len(o.follow) = n)
+JudgeWire(r) ==
+  LET n == IF WireShape(r, r.obs.n) THEN r.obs.n ELSE -1
+      fn == IF r.scn.kind = "wire-cl" THEN "itoa+imf_fixdate" ELSE "hexized_bytes"
+      SizeAt(i) == IF r.scn.kind = "wire-cl" THEN r.scn.sizes[i] ELSE r.obs.follow[i]
+      bad == IF n = Len(r.scn.sizes) THEN {i \in 1..n : WireField(r, i) \notin {"", "unobservable"}} ELSE {}
+      skipped == IF n = Len(r.scn.sizes) THEN Cardinality({i \in 1..n : WireField(r, i) = "unobservable"}) ELSE 0
+  IN IF n # Len(r.scn.sizes) \/ \E i \in 1..Len(r.scn.sizes) : r.scn.sizes[i] \notin 0..2000000000
+       THEN [ok |-> FALSE, n |-> 0, first |-> 0, nt |-> 0, skip |-> 0, sig |-> [kind |-> r.scn.kind, fn |-> fn, elem |-> "batch", field |-> "count"]]
+     ELSE IF bad = {} THEN [ok |-> TRUE, n |-> n - skipped, first |-> 0, skip |-> skipped,
+                            nt |-> Cardinality({i \in 1..n : WireField(r, i) = "" /\ IrregularNum(LimbsOfInt(SizeAt(i)), IF r.scn.kind = "wire-cl" THEN 10 ELSE 16)}),
+                            sig |-> [kind |-> r.scn.kind, fn |-> fn, elem |-> "all", field |-> "none"]]
+     ELSE LET i == MinOf(bad)
+          IN [ok |-> FALSE, n |-> n, first |-> i, nt |-> 0, skip |-> skipped,
+              sig |-> [kind |-> r.scn.kind, fn |-> fn, field |-> WireField(r, i),
+                       elem |-> NumClass(IF r.scn.kind = "wire-cl" THEN "itoa" ELSE "hexized", LimbsOfInt(SizeAt(i)))]]
 
 \* ------------------------------------------------------------------ one verdict per line
 Judge(r) ==
   IF r.obs.kind = "dates" /\ r.scn.kind \in DateKinds THEN JudgeDates(r)
   ELSE IF r.obs.kind = "nums" /\ r.scn.kind \in NumKinds THEN JudgeNums(r)
+  ELSE IF r.obs.kind = "wire" /\ r.scn.kind \in WireKinds THEN JudgeWire(r)
   \* panic / abort / hang of the whole batch (worker framework), or an observation of the wrong shape
-  ELSE [ok |-> FALSE, n |-> 0, first |-> 0, nt |-> 0,
+  ELSE [ok |-> FALSE, n |-> 0, first |-> 0, nt |-> 0, skip |-> 0,
         sig |-> [kind |-> r.scn.kind, fn |-> "any", elem |-> "batch", field |-> r.obs.kind]]
 
 TNext == /\ l <= Len(Rec) /\ l' = l + 1 /\ UNCHANGED vars
          /\ LET j == Judge(Rec[l])
-            IN PrintT(ToJson([t |-> "VERDICT", id |-> Rec[l].id, ok |-> j.ok, n |-> j.n, first |-> j.first, nt |-> j.nt, sig |-> j.sig]))
+            IN PrintT(ToJson([t |-> "VERDICT", id |-> Rec[l].id, ok |-> j.ok, n |-> j.n, first |-> j.first, nt |-> j.nt, skip |-> j.skip, sig |-> j.sig]))
 TSpec == TInit /\ [][TNext]_tvars
 =============================================================================
